@@ -88,3 +88,22 @@ Definition pipe_discarded (c : list N) (chunks : list Z) : Z := p_start (pipe_ru
 Definition seek_discarded (c : list N) (e : option Z) : Z :=
   let off0 := match e with Some E => E | None => zlen c end in
   let '(_, off, _) := seek_loop (S (List.length c)) c off0 0 in off0 - off.
+
+(* ---- the read-ahead of the decoder, universally quantified ------------------------------------------
+   ends = ends of the valid documents preceding the faulty one (increasing byte counts);
+   rs   = bytes the decoder had read when it delivered each of them: at least the document (r_i >= e_i),
+          otherwise ARBITRARY (monotone, within the input);
+   rerr = bytes read when it reported the error at 1-based offset E (the offending byte was read). *)
+Fixpoint increasing (lo : Z) (l : list Z) : bool :=
+  match l with [] => true | x :: r => (lo <=? x) && increasing x r end.
+Fixpoint all_le (a b : list Z) : bool :=
+  match a, b with
+  | [], [] => true
+  | x :: a', y :: b' => (x <=? y) && all_le a' b'
+  | _, _ => false
+  end.
+Definition chunking_okb (c : list N) (ends rs : list Z) (rerr E : Z) : bool :=
+  increasing 1 ends && increasing 0 rs && all_le ends rs
+  && (last ends 0 <? E) && (last rs 0 <=? rerr) && (E <=? rerr) && (rerr <=? zlen c) && (1 <=? E).
+Definition chunking_ok (c : list N) (ends rs : list Z) (rerr E : Z) : Prop :=
+  chunking_okb c ends rs rerr E = true.
